@@ -55,6 +55,7 @@ int main(int argc, char **argv) {
         for (char *it = strtok_r(dup, ",", &sv); it; it = strtok_r(NULL, ",", &sv)) for (int a = 0; a < nanc; a++) if (*it && !strcmp(it, anc[a])) expect_drop = 1;
         free(dup);
         if (hide) expect_drop = 0;
+        static const int ambient[] = { 0, ENOENT, ERANGE, EINTR }; errno = ambient[n % 4];   /* the caller's ambient errno rotates: it must not matter */
         int r = snoopy_filterregistry_callByName("exclude_spawns_of", list);
         n++;
         if ((r == SNOOPY_FILTER_DROP) != expect_drop) { bad++; if (shown++ < 20) printf("MISMATCH list=[%s] got=%s expected=%s\n", list, r == SNOOPY_FILTER_DROP ? "drop" : "pass", expect_drop ? "drop" : "pass"); }
